@@ -334,6 +334,9 @@ pub fn env_u64(name: &str) -> Option<u64> {
 
 /// Execute a scenario in a contained worker and return its result (crash => violation).
 fn exec_scenario(engine: &dyn Engine, w: &mut WorkerHandle, scn: &Value, cpu: f64) -> Result<RunResult, String> {
+    if engine.fresh_process_per_run() {
+        w.kill();
+    }
     let line = format!("EXEC {}", serde_json::to_string(scn).unwrap());
     match w.exec(&line, cpu) {
         Exec::Done(r) => {
@@ -437,6 +440,9 @@ pub fn run_property(engine: &'static dyn Engine, tier: Tier) -> i32 {
                 if herrs.lock().unwrap().len() > 3 {
                     break;
                 }
+                if engine.fresh_process_per_run() {
+                    w.kill();
+                }
                 let ex = w.exec(&format!("RUN {i}"), cpu_budget);
                 let r = match ex {
                     Exec::Done(r) => {
@@ -519,6 +525,7 @@ pub fn run_property(engine: &'static dyn Engine, tier: Tier) -> i32 {
         println!("signature-summary: {sig} runs={count} first_index={idx}");
     }
     let mut violation_lines = 0;
+    let mut unreproduced = 0;
     let mut replay_records = Vec::new();
     if !new_sigs.is_empty() {
         let _ = std::fs::create_dir_all(paths.root.join("replays"));
@@ -553,11 +560,9 @@ pub fn run_property(engine: &'static dyn Engine, tier: Tier) -> i32 {
                 }
             }
             if !confirmed {
-                eprintln!(
-                    "harness error: violation {sig} of run {idx} did not reproduce on replay; not reported as a verdict"
-                );
-                let _ = std::fs::remove_dir_all(&paths.scratch);
-                return 2;
+                eprintln!("note: violation {sig} of run {idx} did not reproduce on replay; not reported as a verdict");
+                unreproduced += 1;
+                continue;
             }
             let path = paths.root.join("replays").join(format!("{id}-{seed}-{idx}-{:08x}.json", rng::hash_str(sig) as u32));
             let rec = json!({
@@ -585,6 +590,11 @@ pub fn run_property(engine: &'static dyn Engine, tier: Tier) -> i32 {
         }
     }
 
+    if violation_lines == 0 && unreproduced > 0 {
+        eprintln!("harness error: {unreproduced} observed violation(s) could not be reproduced from their replay scenario; no verdict");
+        let _ = std::fs::remove_dir_all(&paths.scratch);
+        return 2;
+    }
     // ---- evidence
     let wall = t0.elapsed().as_secs_f64();
     let samples: Vec<Value> = [0u64, n / 2, n.saturating_sub(1)]
